@@ -72,3 +72,7 @@ CLAIMED["C26"] = (
  "registry-exhaustiveness lint over go-dap message types vs. constructor tables, framing rules (announced length = written bytes, io.ReadFull only, bound before allocation), dispatch-table check of DecodeMessage",
  "Decides, exhaustively over the ~110 message types, that each is constructed exactly once under its protocol name and that request/response registries have equal keys; that the Content-Length framing writes len(content) then content and reads with io.ReadFull under a bound; and that decoding dispatches each message kind to its own registry, failed responses to ErrorResponse. Does not decide JSON round trip of individual field types.",
  AST_BASE)
+CLAIMED["C09"] = (
+ "writer-set / consumer-arm agreement lint: token constants the Wz parser can store per AST field (computed with parameter and guard propagation) vs. every switch arm and comparison on that field in the consumers, against a frozen twin-token table; universe table bijection; keyword spelling uniqueness",
+ "Decides that wherever a consumer distinguishes a keyword token on an AST field that the Wz parser fills with the Chinese twin, the twin is handled in the same arm (paired arms stay paired; today's asymmetric sites are read-and-frozen exceptions, a new one is reported), that the two universes define the same builtins with equal arity/kind, and that keyword spellings are unique. Does not decide that the two parsers build equal trees.",
+ AST_BASE)
